@@ -201,8 +201,11 @@ def fit_batch(in_path, out_path, workdir):
             else:
                 xs = np.array([0.5, 1.0, 1.5, 2.0, 2.5, 3.0])
                 ytrue = xs * xs
-            sg = np.full(len(xs), c["sigma"])
-            ys = ytrue + c.get("noise", 1.0) * c["sigma"] * rng.standard_normal(len(xs))
+            # error bars that differ from point to point, rows of the file in no particular order (the likelihood is a sum over the points)
+            sg = c["sigma"] * (0.7 + 0.6 * ((np.arange(len(xs)) * 7) % 11) / 10.0)
+            ys = ytrue + c.get("noise", 1.0) * sg * rng.standard_normal(len(xs))
+            order = np.random.RandomState(c["dseed"] + 1).permutation(len(xs))
+            xs, ys, sg = xs[order], ys[order], sg[order]
             np.savetxt(os.path.join(dd, "d.txt"), np.transpose([xs, ys, sg]))
             xs, ys, sg = np.loadtxt(os.path.join(dd, "d.txt"), unpack=True)       # what the code will read
             like = make_like("gauss", "d.txt", "r", dd, "core_maths")
